@@ -26,7 +26,10 @@ A hunk file is "usable" when its bytes decompress and parse AND every entry pass
 `IndexEntry::check` (valid path, representable time, known kind, …), or when it is the zero-length
 leftover of a killed write (no entries); anything else is treated like a missing hunk but
 REPORTED: `stitch_eq_spec` also pins down the error events (one per unreadable version, one if
-`Band::check_index_hunks` finds hunks missing or a zero-length hunk misplaced, one per unusable hunk).
+`Band::check_index_hunks` finds hunks missing or a zero-length hunk misplaced, one per unusable hunk;
+and, since the repair of `previous_existing_band`, one `bandHeadMissing` for every id the walk passes
+over whose head file is gone although its index still holds hunk 0 — `headLost`, see `stitch_errors`
+and Props/C10h.lean).
 Because every listed entry passed the check, the exclusion filter's `assert!(is_valid)` can never
 fire (`listed_valid`), and since the repair of `Band::open` an unparsable `band_format_version` is
 an error like any other unsupported version — so no hypothesis beyond `ArchWF` is needed.
@@ -66,24 +69,53 @@ theorem stitch_eq_spec_quiet {s : Store} (wf : ArchWF s) (n : Nat)
   refine ⟨by rw [stitchAllP_fst wf], ?_⟩
   rw [stitchAllP_snd wf] at q; exact q
 
-/-- What is reported, spelled out: a version of the chain that cannot be read gives exactly one
-error (`unreadableError`) and contributes nothing; a readable one gives no error unless hunks are
-missing or misplaced (numbering not 0,1,2,…, not as many as the tail says, or a zero-length hunk
-that is not the last one of a version without tail: one `invalidMetadata`) or a hunk file cannot be
-used (one error each, in hunk order). -/
+/-- What is reported, spelled out.  The version asked for, then — if it is incomplete — the walk
+down (`errorsBelow`): a version that exists is consulted (`bandErrors`) and, if complete, ends the
+walk; an id without head file is passed over, and since the repair of `previous_existing_band` it is
+reported with one `bandHeadMissing` if its index still holds hunk 0 (`headLost`: the head was there
+once and is gone; a directory left by a backup killed before its head write has no hunk and stays
+silent).  A version consulted that cannot be read gives exactly one error (`unreadableError`) and
+contributes nothing; a readable one gives no error unless hunks are missing or misplaced (numbering
+not 0,1,2,…, not as many as the tail says, or a zero-length hunk that is not the last one of a
+version without tail: one `invalidMetadata`) or a hunk file cannot be used (one error each, in hunk
+order). -/
 theorem stitch_errors (s : Store) (n : Nat) :
-    listErrors s n = (chain s n).flatMap fun b =>
+    listErrors s n = bandErrors s n ++ (if isComplete s n then [] else errorsBelow s n) ∧
+    errorsBelow s 0 = [] ∧
+    (∀ b, errorsBelow s (b + 1) =
+      if bandPresent s b then bandErrors s b ++ (if isComplete s b then [] else errorsBelow s b)
+      else (if headLost s b then [Err.bandHeadMissing b] else []) ++ errorsBelow s b) ∧
+    ∀ b, bandErrors s b =
       if bandReadable s b then
         (indexCheckError s b).toList ++ (hunkNumsOf s b).filterMap (hunkError s b)
-      else [unreadableError s b] := rfl
+      else [unreadableError s b] := ⟨rfl, rfl, fun _ => rfl, fun _ => rfl⟩
+
+/-- The same, relative to the chain of versions consulted: the errors of the chain's versions
+(`chainErrors`, what was reported before the repair) all occur, in order; anything else reported is
+the `bandHeadMissing` of an id below `n` that lost its head; and if no id below `n` has lost its head
+the listing reports exactly the chain's errors. -/
+theorem stitch_errors_chain (s : Store) (n : Nat) :
+    (chainErrors s n = (chain s n).flatMap fun b =>
+      if bandReadable s b then
+        (indexCheckError s b).toList ++ (hunkNumsOf s b).filterMap (hunkError s b)
+      else [unreadableError s b]) ∧
+    (chainErrors s n).Sublist (listErrors s n) ∧
+    (∀ e ∈ listErrors s n, (∃ c ∈ chain s n, e ∈ bandErrors s c) ∨
+      ∃ c, c < n ∧ headLost s c = true ∧ e = Err.bandHeadMissing c) ∧
+    ((∀ c, c < n → headLost s c = false) → listErrors s n = chainErrors s n) :=
+  ⟨rfl, chainErrors_sublist s n, fun _ he => mem_listErrors he, listErrors_eq_chainErrors n⟩
 
 /-- A listing of intact versions is silent: if every version of the chain is readable, has its
-hunks numbered 0,1,2,… (as many as the tail says) and all of them usable, no error is reported. -/
+hunks numbered 0,1,2,… (as many as the tail says) and all of them usable, and no id below `n` has
+lost its head (`hl`: needed since the repair of `previous_existing_band`, which reports such ids),
+no error is reported. -/
 theorem stitch_silent {s : Store} (n : Nat)
     (h : ∀ b ∈ chain s n, bandReadable s b = true ∧ indexCheckError s b = none ∧
-      ∀ k ∈ hunkNumsOf s b, hunkError s b k = none) :
+      ∀ k ∈ hunkNumsOf s b, hunkError s b k = none)
+    (hl : ∀ c, c < n → headLost s c = false) :
     listErrors s n = [] := by
-  unfold listErrors
+  rw [listErrors_eq_chainErrors n hl]
+  unfold chainErrors
   rw [List.flatMap_eq_nil_iff]
   intro b hb
   obtain ⟨h1, h2, h3⟩ := h b hb
@@ -384,13 +416,32 @@ example : listSpec demo 5 = listSpec demo 2 := by
   simp only [listSpec, contSpec, bandEntries, demo_own0, demo_own1, demo_own2]
   decide +kernel
 
-/-- Listing b0002 reports nothing; listing b0005 reports its undecodable head, once. -/
+theorem demo_noLost : ∀ c, headLost demo c = false := by
+  intro c
+  have hb : demo.all (fun kv => match kv.1 with
+      | .hunk b _ => b == 0 || b == 1 || b == 2 | _ => true) = true := by decide +kernel
+  rw [List.all_eq_true] at hb
+  unfold headLost
+  cases hg : demo.get? (.hunk c 0) with
+  | none => simp
+  | some v =>
+    have := hb _ (get?_mem hg)
+    simp only [Bool.or_eq_true, beq_iff_eq] at this
+    rcases this with (rfl | rfl) | rfl
+    · simp [show bandPresent demo 0 = true by decide +kernel]
+    · simp [show bandPresent demo 1 = true by decide +kernel]
+    · simp [show bandPresent demo 2 = true by decide +kernel]
+
+/-- Listing b0002 reports nothing; listing b0005 reports its undecodable head, once (the head-less
+directory b0003 it passes over holds no hunk: it was never started, nothing is reported for it). -/
 example : listErrors demo 2 = [] := by
-  simp only [listErrors, show chain demo 2 = [2, 1, 0] by decide +kernel, List.flatMap_cons,
+  rw [listErrors_eq_chainErrors _ (fun c _ => demo_noLost c)]
+  simp only [chainErrors, show chain demo 2 = [2, 1, 0] by decide +kernel, List.flatMap_cons,
     List.flatMap_nil, bandErrors, indexCheckError, demo_nums0, demo_nums1, demo_nums2]
   decide +kernel
 example : listErrors demo 5 = [Err.json] := by
-  simp only [listErrors, show chain demo 5 = [5, 2, 1, 0] by decide +kernel, List.flatMap_cons,
+  rw [listErrors_eq_chainErrors _ (fun c _ => demo_noLost c)]
+  simp only [chainErrors, show chain demo 5 = [5, 2, 1, 0] by decide +kernel, List.flatMap_cons,
     List.flatMap_nil, bandErrors, indexCheckError, demo_nums0, demo_nums1, demo_nums2]
   decide +kernel
 
